@@ -148,7 +148,10 @@ var c13Curves = []uint16{29, 23, 24, 25, 256, 257, 0x6399}
 var c13Names = []string{"", "a.example", "b.example.org"}
 
 func genHello(r *Rng) helloSpec {
-	h := helloSpec{Version: []uint16{0x0300, 0x0301, 0x0302, 0x0303, 0x0303, 0x0303}[r.Intn(6)]}
+	h := helloSpec{Version: []uint16{0x0301, 0x0302, 0x0303, 0x0303, 0x0303}[r.Intn(5)]}
+	if r.Chance(0.02) {
+		h.Version = 0x0300 // known finding: reduced rate, never excluded
+	}
 	ns := r.Range(1, 40)
 	if r.Chance(0.6) {
 		ns = r.Range(1, 12)
@@ -332,7 +335,7 @@ func runC13(t *testing.T, sc *Scenario) Result {
 		evs := bySrc[a.Src]
 		if len(evs) == 0 {
 			res.Violate("no-https-event", "https", fmt.Sprintf("hello %d (%s, sni %q): no event for the connection", ai, h.JA3, h.SNI))
-			return res
+			continue
 		}
 		for _, e := range evs {
 			got := fmt.Sprint(e["https.ja3-digest"])
@@ -346,11 +349,11 @@ func runC13(t *testing.T, sc *Scenario) Result {
 					kind = "ja3-digest-wrong-with-grease"
 				}
 				res.Violate(kind, site, fmt.Sprintf("hello %d: recorded digest %q, the specification gives %s for JA3 string %q (version %#04x, %d suites, extensions %v, sni %q)", ai, got, h.Digest, h.JA3, h.Version, len(h.Suites), h.ExtTypes, h.SNI))
-				return res
+				continue
 			}
 			if sn := fmt.Sprint(e["https.server-name"]); sn != h.SNI {
 				res.Violate("server-name-wrong", "https", fmt.Sprintf("hello %d: recorded server name %q, SNI sent %q", ai, sn, h.SNI))
-				return res
+				continue
 			}
 		}
 		res.probe("hellos-verified", 1)
